@@ -134,12 +134,18 @@ PROPS = {
     },
     "C11": {
         "verus": [("tree_node", [TN + "determine_node_to_get", TN + "get_appropriate_tree_node_from_storage", TN + "write_to_storage", "TreeNode.write_to_storage", "lemma_rot"]),
-                  ("manager", [SM + "commit_transaction", SM + "tic_toc", SM + "increment_metric", "DbRecord.transaction_priority"])],
+                  ("manager", [SM + "commit_transaction", SM + "tic_toc", SM + "increment_metric", "DbRecord.transaction_priority"]),
+                  "azks_insert"],
         "scope": "partial, record level: TreeNode::write_to_storage writes exactly {label, latest: self, previous: as-of(stored, epoch-1) or None when new}; rotation lemma: that record still "
                  "serves the as-of-(E) node at E and serves the new node at E+1; readers select by target epoch; the batch a commit hands to the database is non-empty only with the epoch "
-                 "record last (else Err before any database write); Azks has the lowest commit priority. The crash-point quantifier over sets of records is not decided.",
-        "trusted": ["T6 sequential semantics of async fns", "StorageManager::get/set external", "derived Clone is structural (companion)"],
-        "assumed": [],
+                 "record last (else Err before any database write); Azks has the lowest commit priority; write discipline of the recursive batch insertion "
+                 "(recursive_batch_insert_nodes: sequential branch, spawned task body and join): a node is written as brand new - dropping the previous-epoch state - only if it was constructed "
+                 "during this insertion (every write's is_new flag is the flag its subtree's insertion returned; the pushed-down existing node is written as existing). "
+                 "The crash-point quantifier over sets of records is not decided.",
+        "trusted": ["T6 sequential semantics of async fns", "StorageManager::get/set external", "derived Clone is structural (companion)",
+                    "'constructed during this insertion' is a knowledge token handed out by new_interior_node / new_leaf_node only; that no stored record exists for such a label is the trie invariant, not proved",
+                    "R-SPAWN / R-REC / R-SLICE1 applied to recursive_batch_insert_nodes; tokio task model as in C04; termination not proved"],
+        "assumed": ["the node counter additions in recursive_batch_insert_nodes do not overflow (recursive results assumed <= 2^32: machine arithmetic treated as mathematical)"],
     },
     "C04": {
         "verus": [("tree_node", ["TreeNode.set_child", "lemma_sum"]), "azks_audit", "azks_walk"],
